@@ -194,6 +194,11 @@ pub fn one_run(rng: &mut Rng, large: bool, layout: u64) -> Vec<Value> {
             if rng.chance(1, 60) {
                 ps.insert(topo[rng.below(i as u64) as usize]);
             }
+            // a star on top of the chains: the root becomes a direct parent of every second term of the
+            // long chain (more than 30 children; shortcut edges next to long lineages)
+            if !in_b && i % 2 == 0 {
+                ps.insert(topo[0]);
+            }
             if i > 20 && !in_b && rng.chance(1, 12) {
                 for j in (1..i).rev().filter(|j| j % 4 != 3).take(12) {
                     ps.insert(topo[j]);
